@@ -168,6 +168,15 @@ func (ps *Parser) parseMetaTags(root *html.Node) {
 		metaNodes = dom.QuerySelectorAll(root, "meta[property]")
 	}
 
+	// The object type decides whether the "article:*" and "profile:*" properties are used,
+	// wherever in the document "og:type" is declared, so it has to be looked up first.
+	ogTypeProperty := ps.prefixes[OG] + ":" + TypeProp
+	for _, meta := range metaNodes {
+		if strings.ToLower(dom.GetAttribute(meta, "property")) == ogTypeProperty {
+			ps.propertyTable[TypeProp] = dom.GetAttribute(meta, "content")
+		}
+	}
+
 	// Parse property
 	for _, meta := range metaNodes {
 		content := dom.GetAttribute(meta, "content")
